@@ -45,6 +45,11 @@ inductive Expr where
   | len (e : Expr)
   /-- `list.get(i)`: `Some(copy of the element)` or `None` -/
   | get (i : Nat) (l : Expr)
+  /-- a callee that assigns the constant `c` to `.path` of ITS copy of the argument and returns it -/
+  | passSet (path : Array Nat) (c e : Expr)
+  | ite (c a b : Expr)
+  /-- `{ let t = x; t.path = f; t }` -/
+  | block (path : Array Nat) (x f : Expr)
   deriving Inhabited
 
 mutual
@@ -164,6 +169,18 @@ partial def eval : Expr → M Val
     match ← eval e with
     | .list h => pure (.int (← get).heap[h]!.size)
     | _ => do stuck "len of a non-list"; pure .unit
+  | .passSet path c e => do
+    let v ← eval e
+    let nv ← eval c
+    pure (update v path.toList nv)
+  | .ite c a b => do
+    match ← eval c with
+    | .int 1 => eval a
+    | _ => eval b
+  | .block path x f => do
+    let v ← eval x
+    let nv ← eval f
+    pure (update v path.toList nv)
   | .get i l => do
     match ← eval l with
     | .list h =>
@@ -315,6 +332,20 @@ partial def pExpr : P Expr := do
   | "G" => do
     let i ← nat
     pure (.get i (← pExpr))
+  | "M" => do
+    let n ← nat
+    let p ← times n nat
+    let c ← pExpr
+    pure (.passSet p c (← pExpr))
+  | "I" => do
+    let c ← pExpr
+    let a ← pExpr
+    pure (.ite c a (← pExpr))
+  | "B" => do
+    let n ← nat
+    let p ← times n nat
+    let x ← pExpr
+    pure (.block p x (← pExpr))
   | _ => failure
 
 mutual
